@@ -286,6 +286,26 @@ def _simple(e: ast.expr) -> bool:
     return False
 
 
+def _pure_value(e: ast.expr) -> bool:
+    """Built from constants, names and attributes by string formatting / concatenation only (no effects, no order to keep)."""
+    if isinstance(e, (ast.Constant, ast.Name)):
+        return True
+    if isinstance(e, ast.Attribute):
+        return _pure_value(e.value)
+    if isinstance(e, ast.BinOp):
+        return _pure_value(e.left) and _pure_value(e.right)
+    if isinstance(e, ast.JoinedStr):
+        return all(_pure_value(v) for v in e.values)
+    if isinstance(e, ast.FormattedValue):
+        return _pure_value(e.value)
+    if isinstance(e, (ast.Tuple, ast.List)):
+        return all(_pure_value(v) for v in e.elts)
+    if isinstance(e, ast.Call) and isinstance(e.func, ast.Attribute) and e.func.attr in ("format", "join") and isinstance(e.func.value, ast.Constant) \
+            and isinstance(e.func.value.value, str):
+        return all(_pure_value(a) for a in e.args) and all(k.arg is not None and _pure_value(k.value) for k in e.keywords)
+    return False
+
+
 def _body_wo_doc(fn: ast.FunctionDef) -> List[ast.stmt]:
     b = list(fn.body)
     if b and isinstance(b[0], ast.Expr) and isinstance(b[0].value, ast.Constant) and isinstance(b[0].value.value, str):
@@ -338,6 +358,12 @@ class Inliner:
                     for m in st.body:
                         if isinstance(m, ast.FunctionDef):
                             self._process(m, "%s.%s.%s" % (self.mod, st.name, m.name), st)
+            # module-level statements: calls to single-expression helpers (a constant built through a small function)
+            dummy = ast.FunctionDef(name="<module>", args=ast.arguments(posonlyargs=[], args=[], kwonlyargs=[], kw_defaults=[], defaults=[]),
+                                    body=[], decorator_list=[], returns=None, type_comment=None)
+            for st in self.tree.body:
+                if isinstance(st, (ast.Assign, ast.AnnAssign)) and st.value is not None:
+                    self._expr_calls(st, dummy, self.mod, None)
             if self.count == before:
                 break
 
@@ -864,7 +890,13 @@ class Inliner:
                     mapping = inl._bind(callee, c, recv, fn)
                 except NotInlinable:
                     return c
-                if not all(_simple(a) for a in mapping.values()):
+                # an argument is substituted as is when it is simple, or when it is a pure value (string building over
+                # constants and names) and the helper's expression uses that parameter exactly once
+                uses = {}
+                for n_ in ast.walk(e):
+                    if isinstance(n_, ast.Name) and n_.id in mapping:
+                        uses[n_.id] = uses.get(n_.id, 0) + 1
+                if not all(_simple(a) or (_pure_value(a) and uses.get(p_, 0) <= 1) for p_, a in mapping.items()):
                     return c
                 inl.inlined.add(cfq)
                 inl.count += 1
@@ -937,6 +969,67 @@ def load_known_globals() -> Optional[Set[str]]:
     if _known_globals is None and KNOWN_GLOBALS_FILE.exists():
         _known_globals = {l.strip() for l in KNOWN_GLOBALS_FILE.read_text().splitlines() if l.strip() and not l.startswith("#")}
     return _known_globals
+
+
+KNOWN_FIELDS_FILE = pathlib.Path(__file__).with_name("known_fields.txt")
+_known_fields: Optional[Dict[str, Set[str]]] = None
+
+
+def class_private_fields(cls: ast.ClassDef) -> Tuple[Set[str], Set[str]]:
+    """(private fields stored through `self` in the class's methods, every private attribute name mentioned on `self`)."""
+    stored: Set[str] = set()
+    mentioned: Set[str] = set()
+    for n in ast.walk(cls):
+        if isinstance(n, ast.Attribute) and isinstance(n.value, ast.Name) and n.value.id == "self" and n.attr.startswith("_") and not n.attr.startswith("__"):
+            mentioned.add(n.attr)
+            if isinstance(n.ctx, ast.Store):
+                stored.add(n.attr)
+    return stored, mentioned
+
+
+def load_known_fields() -> Optional[Dict[str, Set[str]]]:
+    global _known_fields
+    if _known_fields is None and KNOWN_FIELDS_FILE.exists():
+        _known_fields = {}
+        for l in KNOWN_FIELDS_FILE.read_text().splitlines():
+            l = l.strip()
+            if l and not l.startswith("#"):
+                c, f_ = l.rsplit(".", 1)
+                _known_fields.setdefault(c, set()).add(f_)
+    return _known_fields
+
+
+def restore_renamed_fields(module_name: str, tree: ast.Module) -> int:
+    """"Rename a private attribute": when a top-level class no longer mentions exactly one private field of the reference
+    tree and stores exactly one private field the reference tree does not have, the new name is an alpha-renaming of the
+    old one and is renamed back (in `self.<name>` positions of that class).  Renaming a private attribute consistently
+    to an unused name never changes behaviour, so this is sound whichever field the new one "really" is."""
+    kf = load_known_fields()
+    if kf is None:
+        return 0
+    n = 0
+    for cls in tree.body:
+        if not isinstance(cls, ast.ClassDef):
+            continue
+        ref = kf.get("%s.%s" % (module_name, cls.name))
+        if not ref:
+            continue
+        stored, mentioned = class_private_fields(cls)
+        missing = sorted(ref - mentioned)
+        new = sorted(stored - ref)
+        if len(missing) != 1 or len(new) != 1:
+            continue
+        old_name, new_name = missing[0], new[0]
+        # the name must not be used on other receivers in this module (a private attribute is the class's own)
+        elsewhere = [x for x in ast.walk(tree) if isinstance(x, ast.Attribute) and x.attr == new_name
+                     and not (isinstance(x.value, ast.Name) and x.value.id == "self")]
+        if elsewhere:
+            continue
+        for x in ast.walk(cls):
+            if isinstance(x, ast.Attribute) and x.attr == new_name and isinstance(x.value, ast.Name) and x.value.id == "self":
+                x.attr = old_name
+                n += 1
+    return n
 
 
 def _literal(e: ast.expr) -> bool:
@@ -1013,6 +1106,7 @@ def preprocess(module_name: str, tree: ast.Module, known: Optional[Set[str]], fo
         return set(), 0
     if fold_new_constants(module_name, tree):
         ast.fix_missing_locations(tree)
+    restore_renamed_fields(module_name, tree)
     inl = Inliner(module_name, tree, known, foreign)
     inl.run()
     if inl.count:
